@@ -313,7 +313,7 @@ def _guard_sufficient(test, fn, mapname):
     return 'unknown', ast.unparse(t)
 
 
-@rule('C11', 'R8', 4, 'two-colour shortcuts (PNG, SVG) only under a guard implying one colour per polarity; renderers look modules up by type')
+@rule('C11', 'R8', 6, 'two-colour shortcuts (PNG, SVG) only under a guard implying one colour per polarity; renderers look modules up by type')
 def r8(fx):
     svg = fx.fn('writers', 'write_svg')
     a = single([s for s in svg.body if isinstance(s, ast.Assign) and ast.unparse(s.targets[0]) == 'is_multicolor'], 'is_multicolor')
@@ -341,9 +341,21 @@ def r8(fx):
         any(pat.match(c, 'matrix_iter_verbose(matrix, matrix_size, scale=1, border=border)') is not None for c in src.calls_in(mv))
     yield ob('write_svg multicolour: colour = colormap[type] of every cell of matrix_iter_verbose(border=border)', okl, mv, got=okl, want=True)
     ppm = fx.fn('writers', 'write_ppm')
+    plain_sources = [ast.unparse(c) for c in src.calls_in(ppm) if src.call_name(c) in ('matrix_iter', 'iter', 'matrix_to_lines')]
+    yield ob('write_ppm has no plain (two-colour) row source', not plain_sources, ppm, got=plain_sources, want=[])
+    nb = single([s for s in svg.body if isinstance(s, ast.Assign) and ast.unparse(s.targets[0]) == 'need_background'], 'need_background in write_svg')
+    yield ob('write_svg: the background rectangle replaces the light colour only in plain two-colour rendering',
+             nf.norm(nb.value) == nf.norm(ast.parse('not is_multicolor and colormap[consts.TYPE_QUIET_ZONE] is not None and not draw_transparent', mode='eval').body),
+             nb, got=ast.unparse(nb.value), want='not is_multicolor and colormap[consts.TYPE_QUIET_ZONE] is not None and not draw_transparent')
     okp = any(pat.match(n, "b''.join(pack(b'>3B', *colormap[mt]) for mt in row)") is not None for n in ast.walk(ppm)) and \
         any(pat.match(c, 'matrix_iter_verbose(matrix, matrix_size, scale, border)') is not None for c in src.calls_in(ppm))
     yield ob('write_ppm: every pixel = colormap[type]', okp, ppm, got=okp, want=True)
     okg = any(pat.match(n, '{module_type: palette.index(clr) for module_type, clr in clr_map.items()}') is not None for n in ast.walk(png)) \
         and any(pat.match(n, '((color_index[b] for b in r) for r in miter)') is not None for n in ast.walk(png))
     yield ob('write_png multicolour: palette index by type for every cell', okg, png, got=okg, want=True)
+
+
+@rule('C11', 'R9', 30, 'PNG: every module type is painted with exactly its configured colour (palette invariants, shared with C09.R9)')
+def r9(fx):
+    from . import p09
+    yield from p09.r9(fx)
